@@ -4,6 +4,8 @@ import (
 	"encoding/binary"
 	"fmt"
 	"math/rand"
+	"os"
+	"path/filepath"
 	"sync"
 	"time"
 
@@ -33,7 +35,7 @@ var c10FaultKinds = []string{"ok", "ok", "ok", "notfound", "error", "delay", "tr
 func c10(r *hx.Run) {
 	r.MaxViol = 6 // violations here usually cost a watchdog period each
 	r.Level = "fault_enumeration"
-	r.Rule = "histories on 6 keys in a cache of 16 entries backed by a scripted store: steps drawn from {burst of 1-4 requests, clock advance, purge, eviction by filler keys}; every store call (get/set/delete) draws a fault from {ok, not-found, error, delay 1-30 ms, value truncated at a random offset, random bytes, bit flip in the first 64 bytes, bit flip elsewhere, status field overwritten (0,1,4,99), empty value}. The origin is always healthy. Judged per request: 200 with the key's own intact body, a hit only of a still-valid version, a memory-resident hit without any store read, the request that received an undecodable record is an ordinary fetching miss, nobody stranded (hooked entry state at quiescence). A garbled value that still decodes (the harness decodes it itself) only taints the key: errors and hangs are judged, altered content is the known class undetectable-corruption. Non-trivial = history in which >=1 injected fault reached a store call of a judged key; distinct = fault kind x operation x step kind."
+	r.Rule = "histories on 6 keys in a cache of 16 entries backed by a scripted store: steps drawn from {burst of 1-4 requests, clock advance, purge, eviction by filler keys}; every store call (get/set/delete) draws a fault from {ok, not-found, error, delay 1-30 ms, value truncated at a random offset, random bytes, bit flip in the first 64 bytes, bit flip elsewhere, status field overwritten (0,1,4,99), empty value}. The origin is always healthy. Judged per request: 200 with the key's own intact body, a hit only of a still-valid version, a memory-resident hit without any store read, the request that received an undecodable record is an ordinary fetching miss, nobody stranded (hooked entry state at quiescence). A garbled value that still decodes (the harness decodes it itself) only taints the key: errors and hangs are judged, altered content is the known class undetectable-corruption. Finally the configured store cannot be opened at all (badger directory below a regular file, redis nobody listens on): the cache serves memory-only. Non-trivial = history in which >=1 injected fault reached a store call of a judged key; distinct = fault kind x operation x step kind."
 	r.Assume = []string{"virtual clock; -race build", "a purge whose store delete failed may resurrect the old record later (not judged)", "without an integrity field pike cannot detect corruption that leaves a record well-formed"}
 	rnd := rand.New(rand.NewSource(r.Seed))
 	storeURL := fmt.Sprintf("mem://c10/%d", r.Seed)
@@ -305,6 +307,7 @@ func c10(r *hx.Run) {
 	r.Set("faults_injected_by_op_and_kind", faultCount)
 	fmu.Unlock()
 	r.Set("points_hit", w.Pts.Counts())
+	c10UnusableStore(r)
 	checkRaceLog(r)
 }
 
@@ -313,6 +316,51 @@ func tail(s []string, n int) []string {
 		return s[len(s)-n:]
 	}
 	return s
+}
+
+// c10UnusableStore: the configured store cannot be opened at all (a badger directory below a regular file,
+// a redis server nobody listens on). The cache must come up memory-only and serve as usual.
+func c10UnusableStore(r *hx.Run) {
+	blocker := filepath.Join(r.Scratch, "c10-regular-file")
+	os.WriteFile(blocker, []byte("x"), 0644)
+	dead := hx.FreePorts(1)[0]
+	for ci, storeURL := range []string{"badger://" + filepath.Join(blocker, "sub", "dir"), fmt.Sprintf("redis://127.0.0.1:%d/?timeout=1s", dead)} {
+		kind := []string{"badger_directory_cannot_be_created", "redis_nobody_listening"}[ci]
+		w := newSimpleWorld(r, hx.SimpleCfg{CacheName: fmt.Sprintf("c10u%d", ci), CacheSize: 16, HitForPass: "3s", Store: storeURL}, 1, true)
+		w.Farm.SetScript(func(f *hx.Fetch) *hx.Reply {
+			return &hx.Reply{Status: 200, Header: [][2]string{{"Cache-Control", "max-age=50"}, {"Content-Type", "text/plain"}}, Body: hx.IdentBody(f, 600, "text")}
+		})
+		cs := map[string]interface{}{"store": storeURL, "kind": kind}
+		for k := 0; k < 3; k++ {
+			uri := fmt.Sprintf("/c10u/%d/%d", ci, k)
+			m := &entryModel{HFP: 3, TolerateStale: true}
+			for n := 0; n < 3; n++ {
+				before := w.Farm.LogLen()
+				res := w.Cl.Do(hx.Req{Addr: w.Addr, Host: "c10.example", URI: uri, Timeout: 8 * time.Second})
+				var fs []*hx.Fetch
+				for _, f := range w.Farm.LogSince(before) {
+					if f.URI == uri {
+						fs = append(fs, f)
+					}
+				}
+				r.Eval(1)
+				r.Add("requests_with_unusable_store:"+kind, 1)
+				if res.Err != nil || res.Status != 200 {
+					if res.Err != nil {
+						hangSeen(r)
+					}
+					r.Violate("request_failed_with_unusable_store", map[string]string{"store": kind}, fmt.Sprintf("the cache's store cannot be opened; request #%d for the key answered status %d err %v", n+1, res.Status, res.Err), res.Brief(), cs)
+					break
+				}
+				if kd, text := m.burstCheck(w.Clock.Now(), []*hx.Result{res}, fs, func(*hx.Fetch) ans { return ans{Kind: "cacheable", T: 50} }, false); kd != "" {
+					r.Violate(kd, map[string]string{"store": kind, "mode": "unusable_store"}, text, res.Brief(), cs)
+					break
+				}
+			}
+		}
+		r.Distinct("unusable_store " + kind)
+		w.Farm.Close()
+	}
 }
 
 func init() { register("C10", "fault_enumeration", c10) }
